@@ -28,16 +28,17 @@ const (
 )
 
 type node struct {
-	k    kind
-	b    bool
-	num  string  // the digits as written (ints and reals)
-	i    int64   // value of an int
-	r    float64 // value of a real
-	s    []byte  // string / name bytes
-	n, g int64   // reference
-	kids []*node
-	keys [][]byte // dict keys (kids are the values, in writing order)
-	id   string   // compact, space-free label used in descriptors
+	k     kind
+	b     bool
+	num   string  // the digits as written (ints and reals)
+	i     int64   // value of an int
+	r     float64 // value of a real
+	s     []byte  // string / name bytes
+	n, g  int64   // reference
+	kids  []*node
+	keys  [][]byte // dict keys (kids are the values, in writing order)
+	id    string   // compact, space-free label used in descriptors
+	exact bool     // real leaf that must read back bit for bit (spelling identifies one float64)
 }
 
 func nNull() *node { return &node{k: kNull, id: "null"} }
@@ -186,7 +187,7 @@ func eq(n *node, o core.Object, path string) string {
 			return bad()
 		}
 	case kReal:
-		if v, ok := o.(core.Real); !ok || !realClose(n.r, float64(v)) {
+		if v, ok := o.(core.Real); !ok || !realClose(n.r, float64(v)) || (n.exact && float64(v) != n.r) {
 			return bad()
 		}
 	case kStr:
@@ -241,7 +242,7 @@ func eq(n *node, o core.Object, path string) string {
 	return ""
 }
 
-// sameObj is structural equality of two parsed objects (cross-parser comparison; reals exact up to tolerance).
+// sameObj is structural equality of two parsed objects (cross-parser comparison; everything exact).
 func sameObj(a, b core.Object) bool {
 	switch x := a.(type) {
 	case core.Null:
@@ -255,7 +256,7 @@ func sameObj(a, b core.Object) bool {
 		return ok && x == y
 	case core.Real:
 		y, ok := b.(core.Real)
-		return ok && (x == y || realClose(float64(x), float64(y)))
+		return ok && x == y // both read the same digits: one correctly rounded value
 	case core.String:
 		y, ok := b.(core.String)
 		return ok && x == y
